@@ -331,6 +331,31 @@ def sec_group2(ctx, rng, case):
         ok = all(L.allclose(_dps_matrix(s, 2) @ U[:, k], U[:, k], 1e-7) for s in ts.tableau.stabilizers())
         ctx.check(ok, "two-qubit-group", "C13:clifford-act-on-tableau", "", k=k, **wit)
     ctx.check(cirq.has_stabilizer_effect(g), "two-qubit-group", "C13:clifford-has-stabilizer-effect", "", **wit)
+    # the same gate inside a larger register, on any two positions in any order (the gate's own tableau is embedded by axes)
+    n3 = int(rng.integers(3, 5))
+    q3 = cirq.LineQubit.range(n3)
+    w = [int(x) for x in rng.choice(n3, size=2, replace=False)]
+    k3 = int(rng.integers(2 ** n3))
+    psi3 = np.zeros(2 ** n3, dtype=complex)
+    psi3[k3] = 1
+    pre = _clifford_step(rng, n3, cirq)  # something entangling/rotating first, so that the order of the axes matters
+    psi3 = L.apply_to_state(psi3, P.step_to_ref(pre).matrix, P.step_to_ref(pre).wires, (2,) * n3)
+    psi3 = L.apply_to_state(psi3, U, w, (2,) * n3)
+    op3 = g.on(q3[w[0]], q3[w[1]])
+    ts3 = cirq.CliffordTableauSimulationState(tableau=cirq.CliffordTableau(n3, initial_state=k3), qubits=q3, prng=np.random.RandomState(0))
+    ch3 = cirq.StabilizerChFormSimulationState(qubits=q3, prng=np.random.RandomState(0), initial_state=k3)
+    for st_ in (ts3, ch3):
+        cirq.act_on(P.step_to_op(pre, q3), st_)
+        cirq.act_on(op3, st_)
+    ok3 = all(L.allclose(_dps_matrix(s_, n3) @ psi3, psi3, 1e-7) for s_ in ts3.tableau.stabilizers())
+    ctx.check(ok3, "two-qubit-group", "C13:clifford-act-on-tableau:embedded", "a CliffordGate on wires %r of %d qubits leaves a tableau whose stabilizers do not stabilize the state" % (w, n3),
+              wires=w, n=n3, k=k3, pre=P.describe([pre]), **wit)
+    ctx.check(L.phase_equal(ch3.state.state_vector(), psi3, 1e-7), "two-qubit-group", "C13:clifford-act-on-chform:embedded", "", wires=w, n=n3, k=k3, pre=P.describe([pre]), **wit)
+    # from_op_list over a register in which the gate sits on other positions
+    g3 = cirq.CliffordGate.from_op_list([P.step_to_op(pre, q3), op3], q3)
+    U3 = L.embed(U, w, (2,) * n3) @ L.embed(P.step_to_ref(pre).matrix, P.step_to_ref(pre).wires, (2,) * n3)
+    ctx.check(L.phase_equal(cirq.unitary(g3), U3, 1e-7), "two-qubit-group", "C13:from_op_list-unitary:embedded",
+              lambda: "unitary deviates by %.3g up to phase" % L.phase_diff(cirq.unitary(g3), U3), wires=w, n=n3, pre=P.describe([pre]), **wit)
     ctx.distinct(("c2", idx), nontrivial=len(word) > 0)
     ctx.sample({"index": idx, "word_len": len(word)})
 
